@@ -43,6 +43,7 @@ structure St where
   step : Rat
   pastI : Option Rat
   k : Nat
+deriving DecidableEq
 
 /-- `if not 0 < min_step < max_step: raise ValueError` -/
 def Params.rejected (P : Params) : Bool := rejects P.minStep P.maxStep
